@@ -94,16 +94,22 @@ Inductive dp : node -> Prop :=
 (* phases of a node whose content is in the destination *)
 Definition present_ph (p : phase) : bool :=
   match p with
-  | SkipP | Rdy true | F1 true | F2 true | Pushing true _ | Closing _ | TagP0 _ | TagP1 _ | PostP | Done => true
+  | SkipP | Rdy true | F1 true | F2 true | Pushing true _ | Closing _ | TagP0 _ | TagP1 _ | PostP | Done
+  | MountedP => true
   | _ => false
   end.
 
 (* phases after PreCopy on the not-found path *)
 Definition settled_ph (p : phase) : bool :=
   match p with
-  | Rdy false | F1 false | F2 false | Pushing false _ | Closing false | TagP0 false | TagP1 false | PostP => true
+  | Rdy false | F1 false | F2 false | Pushing false _ | Closing false | TagP0 false | TagP1 false | PostP
+  | MtRdy | Mounting | MtPre | MtF1 | MtF2 | MtC | MountedP => true
   | _ => false
   end.
+
+(* phases of the mount path *)
+Definition mt_ph (p : phase) : bool :=
+  match p with MtRdy | Mounting | MtPre | MtF1 | MtF2 | MtC | MountedP => true | _ => false end.
 
 (* phases of a node that was probed and found absent *)
 Definition absent_ph (p : phase) : bool :=
@@ -134,8 +140,9 @@ Record Inv (st : state) : Prop := {
   i_skflag : forall n, skflag_ph (ph st n) = true -> root_refpush c n = true;
   i_tagging : forall n, tagging_ph (ph st n) = true -> root_tagger c n = true;
   i_noskip : root_refpush c (c_root c) = true -> ph st (c_root c) <> SkipP;
+  i_mt : forall n, mt_ph (ph st n) = true -> c_mount c = true /\ g_ismf g n = false;
   i_tagroot : tag st = None \/ tag st = Some (c_root c);
-  i_tagged : c_mode c <> MGraph ->
+  i_tagged : c_mode c <> MGraph -> c_mount c && negb (g_ismf g (c_root c)) = false ->
              (ph st (c_root c) = PostP \/ ph st (c_root c) = Done \/
               (root_refpush c (c_root c) = true /\ exists sk, ph st (c_root c) = Closing sk)) ->
              tag st <> None
@@ -165,7 +172,7 @@ Qed.
 Lemma init_inv : Inv (init c d0).
 Proof.
   constructor; simpl; intros; try discriminate; try congruence; auto.
-  - destruct H0 as [H0|[H0|[_ [sk H0]]]]; discriminate.
+  - destruct H1 as [H1|[H1|[_ [sk H1]]]]; discriminate.
 Qed.
 
 (* case analysis on whether m is the node that moved *)
@@ -211,12 +218,17 @@ Proof.
   intros H Hx. step_inv H; simp_st; auto; upd_cases x n; auto; congruence.
 Qed.
 
+Lemma settled_absent p : settled_ph p = true -> absent_ph p = true.
+Proof. destruct p; simpl; auto; try discriminate. Qed.
+
 Lemma dst_step st e st' : Inv st -> step g c st e = Some st' ->
   dst st' = dst st \/
-  exists n rd, dst st' = n :: dst st /\ ph st n = Pushing false rd /\ has g (dst st) n = false.
+  exists n, dst st' = n :: dst st /\ settled_ph (ph st n) = true /\ has g (dst st) n = false.
 Proof.
   intros I H. step_inv H; simp_st; auto;
-  right; (destruct sk; [|eauto]);
+  right; exists n; (split; [reflexivity|]); (split; [|assumption]);
+  old_ph; try reflexivity;
+  (destruct sk; [|reflexivity]);
   exfalso; assert (has g (dst st) n = true) by (apply (i_present st I); old_ph; reflexivity);
   congruence.
 Qed.
@@ -224,16 +236,16 @@ Qed.
 Lemma dst_mono st e st' x : Inv st -> step g c st e = Some st' ->
   has g (dst st) x = true -> has g (dst st') x = true.
 Proof.
-  intros I H Hx. destruct (dst_step st e st' I H) as [->|[n [rd [-> _]]]]; auto using has_mono.
+  intros I H Hx. destruct (dst_step st e st' I H) as [->|[n [-> _]]]; auto using has_mono.
 Qed.
 
 Lemma pres_closed st e st' : Inv st -> step g c st e = Some st' ->
   closed_nodes d0 -> closed_nodes (dst st').
 Proof.
-  intros I H Hc0. destruct (dst_step st e st' I H) as [->|[n [rd [-> [Hp _]]]]]; [now apply (i_closed st I)|].
+  intros I H Hc0. destruct (dst_step st e st' I H) as [->|[n [-> [Hp _]]]]; [now apply (i_closed st I)|].
   intros m x [<-|Hm] Hx.
   - apply has_mono. apply (i_present st I).
-    rewrite (i_settled st I n) with (x := x); auto. now rewrite Hp.
+    rewrite (i_settled st I n) with (x := x); auto.
   - apply has_mono. eapply (i_closed st I); eauto.
 Qed.
 
@@ -304,12 +316,12 @@ Lemma pres_orig st e st' : Inv st -> step g c st e = Some st' ->
   forall m, In m (dst st') -> In m d0 \/ (dp m /\ has g d0 m = false).
 Proof.
   intros I H m Hm.
-  destruct (dst_step st e st' I H) as [E|[n [rd [E [Hp _]]]]]; rewrite E in Hm.
+  destruct (dst_step st e st' I H) as [E|[n [E [Hp _]]]]; rewrite E in Hm.
   - now apply (i_orig st I).
   - destruct Hm as [<-|Hm]; [|now apply (i_orig st I)].
     right. split.
-    + apply (i_dp st I). rewrite Hp. discriminate.
-    + apply (i_absent st I). rewrite Hp. reflexivity.
+    + apply (i_dp st I). intro Hz. rewrite Hz in Hp. discriminate.
+    + apply (i_absent st I). now apply settled_absent.
 Qed.
 
 Lemma pres_skflag st e st' : Inv st -> step g c st e = Some st' ->
@@ -373,12 +385,13 @@ Ltac ph_contra Hph :=
   end; try discriminate Hph.
 
 Lemma pres_tagged st e st' : Inv st -> step g c st e = Some st' ->
-  c_mode c <> MGraph ->
+  c_mode c <> MGraph -> c_mount c && negb (g_ismf g (c_root c)) = false ->
   (ph st' (c_root c) = PostP \/ ph st' (c_root c) = Done \/
    (root_refpush c (c_root c) = true /\ exists sk, ph st' (c_root c) = Closing sk)) ->
   tag st' <> None.
 Proof.
-  intros I H Hm Hph. pose proof (i_tagged st I Hm) as IT.
+  intros I H Hm Hnm Hph. pose proof (i_tagged st I Hm Hnm) as IT.
+  pose proof (i_mt st I (c_root c)) as MT.
   pose proof (tag_mono st e st' H) as TM.
   pose proof (mode_cases Hm) as RR.
   pose proof (i_noskip st I) as NS.
@@ -394,7 +407,21 @@ Proof.
             apply negb_false_iff, Bool.eqb_prop in Hx; congruence end
         | apply IT; left; assumption
         | apply IT; right; right; split; [assumption | solve [eauto]]
-        | exfalso; apply NS; assumption ].
+        | exfalso; apply NS; assumption
+        | exfalso; destruct MT as [A B]; [old_ph; reflexivity | rewrite A, B in Hnm; discriminate] ].
+Qed.
+
+Lemma pres_mt st e st' : Inv st -> step g c st e = Some st' ->
+  forall m, mt_ph (ph st' m) = true -> c_mount c = true /\ g_ismf g m = false.
+Proof.
+  intros I H m Hm. pose proof (i_mt st I) as IM.
+  step_inv H; simp_st; try (now apply IM);
+  (upd_cases m n; [| now apply IM]);
+  moved Hm;
+  try (apply IM; old_ph; reflexivity).
+  all: unfold mount_applies in *;
+    repeat match goal with Hx : (_ && _) = true |- _ => apply andb_true_iff in Hx; destruct Hx end;
+    split; [assumption | now apply negb_true_iff].
 Qed.
 
 Lemma step_preserves_inv st e st' : Inv st -> step g c st e = Some st' -> Inv st'.
@@ -411,6 +438,7 @@ Proof.
   - eapply pres_skflag; eauto.
   - eapply pres_tagging; eauto.
   - eapply pres_noskip; eauto.
+  - eapply pres_mt; eauto.
   - eapply pres_tagroot; eauto.
   - eapply pres_tagged; eauto.
 Qed.
@@ -549,13 +577,14 @@ End Rank.
 
 Lemma tagged_lemma tr st :
   accepts g c d0 tr = Some st -> returned st = Some true -> c_mode c <> MGraph ->
+  c_mount c && negb (g_ismf g (c_root c)) = false ->
   tag st = Some (c_root c).
 Proof.
-  intros Ha Hr Hm. unfold accepts in Ha.
+  intros Ha Hr Hm Hnm. unfold accepts in Ha.
   pose proof (run_inv tr _ _ init_inv Ha) as I.
   destruct (run_ret_true tr _ _ Ha eq_refl Hr) as [Hd _].
   destruct (i_tagroot st I) as [Hn|Hs]; auto.
-  exfalso. apply (i_tagged st I Hm); auto.
+  exfalso. apply (i_tagged st I Hm Hnm); auto.
 Qed.
 
 Lemma mt_consistent_inj : (forall a b, g_dkey g a = g_dkey g b -> a = b) -> mt_consistent.
@@ -565,15 +594,32 @@ End Inv.
 
 (* ------------------------------------------------------------------ Copy: the reference *)
 
-Lemma copy_tagged_lemma (g : graph) (dflt opt : Z) (refpusher : bool) (root : node)
+Lemma copy_tagged_lemma (g : graph) (dflt opt : Z) (refpusher mount : bool) (root : node)
       (cached0 d0 : list node) (tags0 : str -> option node) (srcRef dstRef : str) tr st :
-  accepts g (copy_cfg dflt opt refpusher root cached0) d0 tr = Some st ->
+  mount && negb (g_ismf g root) = false ->
+  accepts g (copy_cfg dflt opt refpusher mount root cached0) d0 tr = Some st ->
   returned st = Some true ->
   tags_after tags0 (eff_ref srcRef dstRef) st (eff_ref srcRef dstRef) = Some root.
 Proof.
-  intros Ha Hr. unfold tags_after. rewrite str_eqb_refl.
-  rewrite (tagged_lemma g _ d0 tr st Ha Hr); [reflexivity|].
+  intros Hnm Ha Hr. unfold tags_after. rewrite str_eqb_refl.
+  rewrite (tagged_lemma g _ d0 tr st Ha Hr); [reflexivity| |exact Hnm].
   unfold copy_cfg. simpl. destruct refpusher; discriminate.
+Qed.
+
+(* a blob root that gets mounted is never tagged (OnMounted is not wrapped by prepareCopy) *)
+Definition g_blob : graph := mkGraph 1 (fun _ => []) (fun _ => false) (fun _ => false) (fun n => n).
+Definition c_mountroot : cfg := mkCfg 3 MTagger 0 true [].
+Definition tr_mountroot : list event :=
+  [ExB 0; ExE 0 false; Cb CMountFrom 0; MtB 0; MtE 0 MMounted; Cb CMounted 0; Ret true].
+
+Lemma tagged_refuted_for_mounted_blob_root :
+  exists g c d0 tr st,
+    closed_nodes g d0 /\ accepts g c d0 tr = Some st /\ returned st = Some true /\
+    c_mode c <> MGraph /\ tag st <> Some (c_root c).
+Proof.
+  exists g_blob, c_mountroot, [], tr_mountroot. eexists.
+  split; [intros m x []|]. split; [vm_compute; reflexivity|].
+  split; [reflexivity|]. split; simpl; discriminate.
 Qed.
 
 Lemma eff_ref_blank srcRef : eff_ref srcRef [] = srcRef.
@@ -589,7 +635,7 @@ Proof. reflexivity. Qed.
 Definition g_twin : graph :=
   mkGraph 3 (fun n => match n with 1 => [0] | _ => [] end) (fun _ => false)
           (fun n => Nat.eqb n 1) (fun n => match n with 0 => 0 | _ => 1 end).
-Definition c_twin : cfg := mkCfg 3 MGraph 1 [].
+Definition c_twin : cfg := mkCfg 3 MGraph 1 false [].
 Definition tr_twin : list event := [ExB 1; ExE 1 true; Cb CSkip 1; Ret true].
 
 Lemma closure_refuted_without_mt_consistency :
@@ -609,7 +655,7 @@ Qed.
 Definition g_ex : graph :=
   mkGraph 4 (fun n => match n with 2 => [0; 1; 1] | 3 => [2; 0] | _ => [] end) (fun _ => false)
           (fun n => Nat.leb 2 n) (fun n => n).
-Definition c_ex : cfg := mkCfg 2 MTagger 3 [].
+Definition c_ex : cfg := mkCfg 2 MTagger 3 false [].
 Definition tr_ex : list event :=
   [ExB 3; ExE 3 false; SFB 3; SFE 3; SFC 3; ExB 2; ExB 0; ExE 2 false; ExE 0 false; SFB 2;
    Cb CPre 0; SFE 2; SFB 0; SFC 2; SFE 0; PuB 0 false; ExB 1; ExE 1 true; PuE 0 false POk;
